@@ -1,0 +1,73 @@
+//go:build verif
+
+package metrics
+
+// Machine-checked contracts (comment-only; build tag verif). Checked by /verif/bin/hv.
+
+//@ pred mcOK(mc *MetricsCollector) := mc != nil && mc.metrics != nil && mc.metrics.BackendMetrics != nil
+
+//@ func (*MetricsCollector).RecordRequest
+//@   props C13
+//@   requires mcOK(mc)
+//@   ensures mc.metrics.TotalRequests == (old(mc.metrics.TotalRequests) + 1) % 18446744073709551616
+//@   modifies mc.metrics.TotalRequests
+
+//@ func (*MetricsCollector).RecordRateLimitedRequest
+//@   props C13
+//@   requires mcOK(mc)
+//@   ensures mc.metrics.RateLimitedRequests == (old(mc.metrics.RateLimitedRequests) + 1) % 18446744073709551616
+//@   modifies mc.metrics.RateLimitedRequests
+
+//@ func (*MetricsCollector).RecordResponse
+//@   props C13
+//@   requires mcOK(mc)
+//@   ensures ok: success ==> mc.metrics.SuccessfulRequests == (old(mc.metrics.SuccessfulRequests) + 1) % 18446744073709551616
+//@             && mc.metrics.FailedRequests == old(mc.metrics.FailedRequests)
+//@   ensures fail: !success ==> mc.metrics.FailedRequests == (old(mc.metrics.FailedRequests) + 1) % 18446744073709551616
+//@             && mc.metrics.SuccessfulRequests == old(mc.metrics.SuccessfulRequests)
+//@   modifies mc.metrics.SuccessfulRequests, mc.metrics.FailedRequests, mc.metrics.avgResponseTimeBits
+
+// EMA of response times: floating point, not needed by any property; only its frame matters.
+//@ func (*MetricsCollector).updateAverageResponseTime
+//@   props C13
+//@   requires mcOK(mc)
+//@   modifies mc.metrics.avgResponseTimeBits
+//@ loop (*MetricsCollector).updateAverageResponseTime #0
+//@   props C13
+//@   invariant same: mc.metrics == old(mc.metrics)
+//@   modifies mc.metrics.avgResponseTimeBits
+
+// Per-backend cells live in a map keyed by backend name, all under Metrics.mutex.
+//@ pred bmCellsOK(mc *MetricsCollector) := (forall k string :: {mc.metrics.BackendMetrics[k]} has(mc.metrics.BackendMetrics, k) ==>
+//@        mc.metrics.BackendMetrics[k] != nil && allocated(mc.metrics.BackendMetrics[k]))
+//@      && (forall k1 string :: forall k2 string :: {mc.metrics.BackendMetrics[k1], mc.metrics.BackendMetrics[k2]}
+//@        has(mc.metrics.BackendMetrics, k1) && has(mc.metrics.BackendMetrics, k2) && k1 != k2 ==> mc.metrics.BackendMetrics[k1] != mc.metrics.BackendMetrics[k2])
+
+//@ func (*MetricsCollector).RecordBackendRequest
+//@   props C13
+//@   requires mcOK(mc) && unlocked(mc.metrics.mutex) && bmCellsOK(mc)
+//@   ensures cells: bmCellsOK(mc)
+//@   ensures counted: old(len(mc.metrics.BackendMetrics)) < MaxBackendMetrics ==> has(mc.metrics.BackendMetrics, backendName)
+//@             && mc.metrics.BackendMetrics[backendName].TotalRequests ==
+//@                (old(has(mc.metrics.BackendMetrics, backendName)) ? (old(mc.metrics.BackendMetrics[backendName].TotalRequests) + 1) % 18446744073709551616 : 1)
+//@   ensures others: forall k string :: {mc.metrics.BackendMetrics[k]} k != backendName && old(has(mc.metrics.BackendMetrics, k)) ==>
+//@             has(mc.metrics.BackendMetrics, k) && mc.metrics.BackendMetrics[k] == old(mc.metrics.BackendMetrics[k])
+//@             && mc.metrics.BackendMetrics[k].TotalRequests == old(mc.metrics.BackendMetrics[k].TotalRequests)
+//@   modifies mapof(mc.metrics.BackendMetrics), BackendMetrics.TotalRequests, BackendMetrics.SuccessfulRequests, BackendMetrics.FailedRequests, BackendMetrics.AverageResponseTime
+
+//@ func (*MetricsCollector).UpdateBackendHealth
+//@   props C04
+//@   requires mcOK(mc) && unlocked(mc.metrics.mutex) && bmCellsOK(mc)
+//@   ensures cells: bmCellsOK(mc)
+//@   ensures mirror: has(mc.metrics.BackendMetrics, backendName) && mc.metrics.BackendMetrics[backendName].IsHealthy == isHealthy
+//@   ensures others: forall k string :: {mc.metrics.BackendMetrics[k]} k != backendName && old(has(mc.metrics.BackendMetrics, k)) ==>
+//@             has(mc.metrics.BackendMetrics, k) && mc.metrics.BackendMetrics[k] == old(mc.metrics.BackendMetrics[k])
+//@             && mc.metrics.BackendMetrics[k].IsHealthy == old(mc.metrics.BackendMetrics[k].IsHealthy)
+//@   modifies mapof(mc.metrics.BackendMetrics), BackendMetrics.IsHealthy, BackendMetrics.LastHealthCheck
+
+//@ func (*MetricsCollector).UpdateBackendConnections
+//@   props C13
+//@   requires mcOK(mc) && unlocked(mc.metrics.mutex) && bmCellsOK(mc)
+//@   ensures cells: bmCellsOK(mc)
+//@   ensures gauge: has(mc.metrics.BackendMetrics, backendName) && mc.metrics.BackendMetrics[backendName].ActiveConnections == connections
+//@   modifies mapof(mc.metrics.BackendMetrics), BackendMetrics.ActiveConnections
